@@ -234,7 +234,7 @@ def minimise_main(pid, in_path, out_path, time_limit=90.0):
         progress = True
         while progress and time.time() - t0 < time_limit:
             progress = False
-            for cand in mod.shrink(cur):
+            for cand in mod.shrink(cur, rp['violation']):
                 if time.time() - t0 > time_limit:
                     break
                 cand = dict(cand)
